@@ -22,7 +22,7 @@ NPTS = 25
 
 
 def floors(tier):
-    return {"points_checked": 400, "points_generic": 200, "points_passed_as_non_contiguous_view": 300, "points_checked_right_after_a_call_with_an_integer_array": 500, "solver_runs_with_gradient_scaler": 8, "points_within_1e-7_of_a_cosine_zero": 20, "points_checked_after_solver_runs": 250, "solver_runs_on_exported_functions": 20, "history_calls_judged": 1500, "history_calls_through_one_overwritten_array": 700, "calls_at_non_finite_points": 100, "__nontrivial__": 40}
+    return {"points_checked": 400, "points_generic": 200, "points_passed_as_non_contiguous_view": 300, "points_checked_right_after_a_call_with_an_integer_array": 500, "solver_runs_with_gradient_scaler": 8, "points_within_1e-7_of_a_cosine_zero": 20, "points_at_the_double_nearest_to_a_cosine_zero": 15, "points_checked_after_solver_runs": 250, "solver_runs_on_exported_functions": 20, "history_calls_judged": 1500, "history_calls_through_one_overwritten_array": 700, "calls_at_non_finite_points": 100, "__nontrivial__": 40}
 
 
 def cases(tier, seed):
@@ -243,6 +243,10 @@ def run(spec):
             root = (np.pi / 2 + np.pi * int(rng.integers(-1, 1))) * np.sqrt(i + 1)
             if abs(root) <= 5:
                 x[i] = root + float(rng.choice([-1.0, 1.0]) * np.exp(rng.uniform(np.log(1e-13), np.log(5e-2)))) * np.sqrt(i + 1)
+                if rng.random() < 0.3:
+                    # the double nearest to the root itself, and its neighbours: the cosine is of order 1e-16, not zero
+                    x[i] = np.nextafter(root, root + float(rng.integers(-1, 2))) if rng.random() < 0.5 else root
+                    out.count("points_at_the_double_nearest_to_a_cosine_zero")
         elif spec["kind"] == "near_integer":
             # close to, not on, the integer lattice (where the trigonometric terms vanish)
             x = rng.integers(-5, 6, n) + rng.choice([-1.0, 1.0], n) * np.exp(rng.uniform(np.log(1e-9), np.log(1e-3), n))
